@@ -26,6 +26,7 @@ func runC17(p *eng.Prog, r *eng.Report, tier string) {
 	c17QuoteChain(c, "C17.10")
 	c17QuoteStartedHasDecoder(c, "C17.12")
 	c17CloseDirectiveEndsTheSpan(c, "C17.13")
+	c17ScannerReadsTheInput(c, "C17.14")
 	c17TokenLengthWithinData(c, "C17.11")
 	split := map[string]bool{"styling.Decoder.scan": true, "styling.Decoder.scanSpan": true, "styling.Decoder.scanPre": true}
 	nret := 0
@@ -711,4 +712,48 @@ func c17CloseDirectiveEndsTheSpan(c *cx, id string) {
 		}
 	}
 	c.r.Floor(id, "close arms in scanSpan", n, 1)
+}
+
+// c17ScannerReadsTheInput (C17.14, C17.15): (a) the decoder scans the caller's
+// reader itself: NewDecoder hands bufio.NewScanner its own parameter. A
+// wrapper that rewrites the bytes on the way (CR LF to LF "so that Windows
+// fences close") makes the token data differ from the input, and differently
+// for every way the reads fall. (b) Decoder.hasRun says "a token has been
+// produced": it is there for Style() and is read by Style() only. A split
+// function that decides what a line is by it ("blocks only start where nothing
+// has run yet") decides by where the previous read ended: the flag is set
+// before a sub-scanner asks for more data.
+func c17ScannerReadsTheInput(c *cx, id string) {
+	if f := c.fn(id, "styling", "NewDecoder"); f != nil {
+		n := 0
+		for _, cl := range f.Calls("bufio.NewScanner") {
+			n++
+			a := f.Norm(cl.Args[0], nil)
+			c.r.Check(id, f, "reader handed to the scanner", "P: the caller's reader (parameter 0) itself", cl.Pos(), a == "p0", "the scanner reads "+a)
+		}
+		c.r.Floor(id, "scanners created by NewDecoder", n, 1)
+	}
+	n := 0
+	for _, f := range c.allFns() {
+		if !strings.HasPrefix(f.Short, "styling.") {
+			continue
+		}
+		lhs := map[ast.Expr]bool{}
+		for _, w := range f.Writes() {
+			lhs[ast.Unparen(w.LHS)] = true
+		}
+		f.WalkBody(func(nd ast.Node) bool {
+			sel, ok := nd.(*ast.SelectorExpr)
+			if !ok || lhs[sel] {
+				return true
+			}
+			if k, isF := f.FieldClass(sel); !isF || k != "styling.Decoder.hasRun" {
+				return true
+			}
+			n++
+			c.r.Check("C17.15", f, "read of Decoder.hasRun", "K: the has-run flag is read by Style() only", sel.Pos(), f.Short == "styling.(*Decoder).Style", "read in "+f.Short+": what the scanner takes a line for depends on where the previous read ended")
+			return true
+		})
+	}
+	c.r.Floor("C17.15", "reads of Decoder.hasRun", n, 1)
 }
